@@ -80,7 +80,8 @@ Inductive cop :=
 | BBuild (contract chain body timeout relayer : Z)
 | BConfirm (v nonce contract signer : Z) (sg : Sig)
 | BUpdateEstimate (nonce contract est : Z)
-| BRemove (nonce contract : Z).           (* executed, cancelled or timed out *)
+| BRemove (nonce contract : Z)            (* executed, cancelled or timed out *)
+| BRebody (nonce contract body : Z).      (* the chain's compass changed: checkpoint renewed with the new compass id *)
 
 (** evm.GetEthAddressByValidator: the PARSED address of the first account on that chain (spelling-insensitive;
     valset's collision check, [collides], compares the address strings and Pubkey blobs as written). *)
@@ -117,6 +118,10 @@ Definition key_confirmed (nonce contract a : Z) (l : list confirm) : bool :=
 Definition with_est (b : batch) (e : Z) : batch :=
   {| b_nonce := b_nonce b; b_contract := b_contract b; b_chain := b_chain b; b_body := b_body b;
      b_timeout := b_timeout b; b_relayer := b_relayer b; b_est := e |}.
+
+Definition with_body (b : batch) (body : Z) : batch :=
+  {| b_nonce := b_nonce b; b_contract := b_contract b; b_chain := b_chain b; b_body := body;
+     b_timeout := b_timeout b; b_relayer := b_relayer b; b_est := b_est b |}.
 
 Definition cstep (s : cstate) (o : cop) : cstate * cres :=
   match o with
@@ -176,6 +181,16 @@ Definition cstep (s : cstate) (o : cop) : cstate * cres :=
                            else cs_confirms s;
             cs_last := cs_last s; cs_reg := cs_reg s; cs_status := cs_status s |}, COk)
       end
+  | BRebody nonce contract body =>
+      (* refreshOpenBatchCheckpoints, one open batch of the chain whose compass changed: the compass id is part of
+         [b_body]; bytes to sign renewed, confirmations of the batch deleted (same DeleteBatchConfirms) *)
+      match find_batch (cs_batches s) contract nonce with
+      | None => (s, CNoBatch)
+      | Some _ =>
+        ({| cs_batches := map (fun x => if b_nonce x =? nonce then with_body x body else x) (cs_batches s);
+            cs_confirms := delete_confirms nonce contract (cs_confirms s);
+            cs_last := cs_last s; cs_reg := cs_reg s; cs_status := cs_status s |}, COk)
+      end
   end.
 
 Definition crun_from (s : cstate) (ops : list cop) : cstate := fold_left (fun s o => fst (cstep s o)) ops s.
@@ -202,6 +217,7 @@ Arguments BBuild {Sig} _ _ _ _ _.
 Arguments BConfirm {Sig} _ _ _ _ _.
 Arguments BUpdateEstimate {Sig} _ _ _.
 Arguments BRemove {Sig} _ _.
+Arguments BRebody {Sig} _ _ _.
 Arguments of_batch {Sig} _ _ _.
 
 (** Ideal signatures for the examples and the correspondence check only (see Cons/Queue.v). *)
